@@ -103,8 +103,11 @@ def check_codec(chk, cfg, c, orc, decl):
                 for a in v["alts"]:
                     chk.ob("T-alt", "%s::%s alt %d" % (A, name, a), tfb[a] == ("some", name) if 0 <= a < 256 else False,
                            "try_from_bits(%d) = %s, declared alternative of %s" % (a, tfb[a] if a < 256 else None, name), w)
-                    chk.ob("T-alt-width", "%s::%s alt %d" % (A, name, a), a < (1 << bits),
-                           "alternative code %d does not fit in %d bits" % (a, bits), w)
+                    if cfg is not None:
+                        # library codecs: an alternative that does not fit the width could never be read back from packed storage
+                        # (generated witness declarations, cfg None, deliberately include such alternatives: the width follows the discriminants)
+                        chk.ob("T-alt-width", "%s::%s alt %d" % (A, name, a), a < (1 << bits),
+                               "alternative code %d does not fit in %d bits" % (a, bits), w)
                     accept[a] = name
         else:
             for name, discr in c.variants:
